@@ -333,10 +333,21 @@ func (c20) Generate(r *sim.Rand, tier string) *sim.Scenario {
 	if r.Bool(0.1) {
 		ntasks = r.Range(5, 8) // any number of goroutines
 	}
+	enum1 := r.Bool(0.0012)
+	if tier == "thorough" {
+		enum1 = r.Bool(0.03)
+	}
+	if enum1 {
+		ntasks = 2 // small scenario, every single-preemption schedule
+	}
 	maxSteps := 14
 	if tier == "thorough" {
 		ntasks = r.Range(2, 6)
 		maxSteps = 25
+	}
+	if enum1 {
+		ntasks, maxSteps = 2, 6
+		sc.Cfg["enum1"] = 1
 	}
 	sc.Cfg["tasks"] = float64(ntasks)
 	D, O := r.Range(1, 3), r.Range(1, 3)
@@ -430,7 +441,7 @@ func (c20) Generate(r *sim.Rand, tier string) *sim.Scenario {
 	allBackprop := r.Bool(0.3) // every task builds and back-propagates private graphs
 	var bpMarks [][]uint64
 	// the schedule family is chosen first so that the programs can suit it
-	schedMode := r.Intn(5)
+	schedMode := []int{0, 1, 2, 3, 4, 4, 4}[r.Intn(7)]
 	stormBias := []int{sim.ClassGen, sim.ClassRNG, sim.ClassGradRule, sim.ClassBackprop, sim.ClassBackprop, sim.ClassBackprop}[r.Intn(6)]
 	if schedMode == 4 && (stormBias == sim.ClassBackprop || stormBias == sim.ClassGradRule) {
 		allBackprop = true
@@ -781,7 +792,7 @@ func (c20) Generate(r *sim.Rand, tier string) *sim.Scenario {
 			if len(cands) > 0 {
 				a := cands[r.Intn(len(cands))]
 				m := bpMarks[a]
-				k0 = int(m[r.Intn(len(m))]) + r.Intn(80)
+				k0 = int(m[r.Intn(len(m))]) + r.Intn(30)
 				sc.Cfg["first"] = float64(a)
 			}
 		}
@@ -829,10 +840,65 @@ func findStep(steps []sim.Step, out int) *sim.Step {
 
 /* ---------- execution: stage A ---------- */
 
+// Execute runs the scenario under its plan; with Cfg["enum1"] = 1 it then
+// enumerates single-preemption schedules exhaustively (up to a cap, by
+// stride): task a runs first and is switched out at yield k in favour of
+// task b, for every a, b != a and every k of a's solo run. A violation that
+// needs exactly one context switch at one particular yield point cannot be
+// missed on such a scenario.
 func (prop c20) Execute(sc *sim.Scenario) *sim.Outcome {
 	if !sim.Instrumented() {
 		return prop.executeRace(sc)
 	}
+	out := prop.executeOne(sc)
+	if sc.Cfg["enum1"] != 1 || out.Violation != nil || out.Discard != "" {
+		return out
+	}
+	solo := sc.Data["solo"]
+	nt := sc.CfgInt("tasks")
+	if len(solo) < nt {
+		return out
+	}
+	total := 0
+	for a := 0; a < nt; a++ {
+		total += int(solo[a]) * (nt - 1)
+	}
+	stride := 1
+	const limit = 2500
+	if total > limit {
+		stride = (total + limit - 1) / limit
+	}
+	for a := 0; a < nt; a++ {
+		for b := 0; b < nt; b++ {
+			if b == a {
+				continue
+			}
+			for k := (a + b) % stride; k < int(solo[a]); k += stride {
+				v := sc.Clone()
+				v.Cfg["enum1"] = 0
+				v.Cfg["bias"] = 0
+				v.Cfg["first"] = float64(a)
+				v.Sched = [][2]int{{k, b}}
+				o := prop.executeOne(v)
+				out.Probes["enumerated-single-preemption-schedules"]++
+				out.SimSteps += o.SimSteps
+				out.Faults["preemption"] += o.Faults["preemption"]
+				if o.Violation != nil {
+					out.Violation = o.Violation
+					out.Concrete = v
+					return out
+				}
+			}
+		}
+	}
+	out.Probes["scenarios-with-exhaustive-single-preemption"]++
+	if stride == 1 {
+		out.Probes["scenarios-with-exhaustive-single-preemption-stride-1"]++
+	}
+	return out
+}
+
+func (prop c20) executeOne(sc *sim.Scenario) *sim.Outcome {
 	out := sim.NewOutcome()
 	start := sim.Now()
 	lh := sim.NewHash()
